@@ -458,14 +458,16 @@ EXTRA = {
            'the resizing adjoint) are called the same way; affine finite-'
            'difference operators and resizing operators are among the '
            'instances, affine shifts op + v and sums of operators returning '
-           'views of their input.',
+           'views of their input.  R12: op(x, out=x) holds the values of '
+           'op(x) (evaluated aliased calls).',
     'C05': ' The evaluated tier R8 covers default, product-space, tensor '
            '(matrix, sampling, flattening, pointwise inner) and finite-'
            'difference operators on weighted / complex / discretized model '
            'spaces, plus adjoint.adjoint; weighted-space defects are known '
            'findings.  Short axes (2, 3 points) for every finite-difference '
            'method / padding, power spaces of length one and two, resizing '
-           'operators for every pad mode; R9w wavelet adjoints.',
+           'operators for every pad mode; R9w wavelet adjoints; complex '
+           'scalar multiplicands; ranges of lower precision.',
     'C04': ' Functional arithmetic (scalings, sums, translations) is '
            'normalised like operator arithmetic.  Leaf operators with domain '
            '= range: no aliased leaf call on a fresh out (R3), out aliased '
@@ -491,7 +493,9 @@ EXTRA = {
            'nuclear norm with a 2x2 SVD model) must have finite f(p) and no '
            'descent of f(z) + ||z-x||^2/(2 sigma) along 34 rays from p, the '
            'one-sided slopes computed by jet expansion of the functional\'s '
-           'own value (a necessary condition).',
+           'own value (a necessary condition).  R7: the in-place call of '
+           'every library proximal equals the out-of-place call; left-'
+           'scaled separable sums with one step size per part.',
     'C08': ' Evaluated tier R5: Fenchel-Young equality at the gradient, '
            'biconjugate values and the Moreau decomposition of concrete '
            'functionals at designated points on weighted model spaces '
@@ -501,7 +505,9 @@ EXTRA = {
            'translated functionals whose conjugate is a derived functional; '
            'Kullback-Leibler with a prior that has zeros; R6 Moreau '
            'decomposition of the documented factory pairs called directly '
-           'with lam and g.',
+           'with lam and g.  The inequality is also tested at the gradient '
+           'with one entry halved (isolates one coordinate); scaled '
+           'constant functionals; points outside the effective domain.',
     'C10': ' Evaluated tier R3: proximals and default operators called '
            'with out aliased to the input on model spaces, after a first '
            'aliased call of the same operator instance at another point.',
@@ -529,7 +535,9 @@ EXTRA = {
            'consecutive values of the returned estimate.  R10: no aliased '
            'evaluation of a user operator (solvers run with operators X -> '
            'X).  R2c: default Landweber relaxation from a generically '
-           'started norm estimate.',
+           'started norm estimate.  R2n: the norm helper of the default '
+           'Douglas-Rachford steps returns |c| ||A|| for scaled operators.  '
+           'Machine constants (np.finfo) are absolute numbers in R8.',
     'C13': ' Evaluated tier: the four operator classes are instantiated on '
            'a 4 x 3 model space with symbolic cell sides; values = reference '
            'stencil / cell side (R6), derivative = exact difference of the '
@@ -548,7 +556,10 @@ EXTRA = {
            'callables; element() owns its data (R4c); R1L: the interpolators '
            'on value arrays in Fortran memory order; R6a deformation '
            'operators under out aliased to the input (kernel alias '
-           'hazards).',
+           'hazards).  R7i: the interp property of the interpolating '
+           'operators over all per-axis tuples; R4 a second out-of-place '
+           'evaluation of a sampling wrapper shares no memory with the '
+           'first result.',
     'C16': ' Mixed grow / shrink shapes in the n-d rule; _offset_from_spaces '
            'evaluated on 81 two-dimensional pairs with signed offsets; axes '
            'that keep their size with non-zero offset.  R2s: zero, constant '
